@@ -268,7 +268,7 @@ def _summary_contests(ctx):
                     continue
                 txt = ir.show(w[2], maxdepth=12)
                 sliced = any(x[0] == "sub" and x[2][0] == "slice" and x[2][1] == ("const", None) and "n_train" in ir.show(x[2][2], maxdepth=6) or
-                             (x[0] == "sub" and x[2][0] == "slice" and "shape" in ir.show(x[2][2], maxdepth=6) and x[2][1] == ("const", None))
+                             (x[0] == "sub" and x[2][0] == "slice" and ("shape" in ir.show(x[2][2], maxdepth=6) or "len(" in ir.show(x[2][2], maxdepth=6)) and x[2][1] == ("const", None))
                              for x in ir.walk(w[2]))
                 if sliced or "unit_category" in txt:
                     return True
@@ -421,7 +421,7 @@ def _design_independence(ctx):
                f"(e.g. {uses[0][0]}) through its {', '.join(kinds)}: an unexpected unit from a contest without baseline units adds a "
                f"column, which changes the dimension of the random effects and the random stream for every unit")
     probe = ("call", ("global", "pandas.get_dummies"), (("sub", ("call", ("global", "pandas.concat"), (("list", (R_, N_, UP)),), (("axis", ("const", 0)),)), ("const", "postal_code")),), ())
-    ctx.selftest("C11.R4.independent", "universe" in taint(("sub", probe, ("slice", ("const", None), ("sub", ("attr", R_, "shape"), ("const", 0)), ("const", None)))),
+    ctx.selftest("C11.R4.independent", "universe" in taint(("sub", probe, ("slice", ("const", None), ir.nrows(R_), ("const", None)))),
                  "row slicing must not remove the category-universe dependence")
 
 
